@@ -132,9 +132,10 @@ func classify(file, msg string) (Diag, bool) {
 }
 
 type obs struct {
-	exit  int
-	diags []Diag
-	bad   []string // unclassifiable output
+	exit   int
+	diags  []Diag
+	bad    []string // unclassifiable output
+	stderr string
 }
 
 func (o obs) answer() string { return fmt.Sprintf("ok %d %s", o.exit, renderSet(o.diags)) }
@@ -158,7 +159,7 @@ func runBinary(bin, cwd string, args []string, jsonMode bool) (obs, error) {
 		<-done
 		return obs{exit: 124, bad: []string{"timeout"}}, nil
 	}
-	o := obs{}
+	o := obs{stderr: strings.TrimSpace(stderr.String())}
 	var ee *exec.ExitError
 	if errors.As(werr, &ee) {
 		o.exit = ee.ExitCode()
